@@ -344,8 +344,14 @@ def run(ck):
             a = list(dict(v[3]).values())
             ck.judge(a == [me, other], "C15.3", short(cfc) + ":conflict-order", w, "self (earlier chain member) is the left segment",
                      found=T.show(v)[:120])
-            guard = [c for c, tv, _ in pa.state.assumptions if tv]
-            ok = len(guard) == 1 and guard[0][0] == "app" and guard[0][1].endswith("endOverlapsWithStartOf") and guard[0][2] == me
+            # the overlap test must be known true on this path - tested directly, or refuted in negated form
+            guard = []
+            for c, tv, _ in pa.state.assumptions:
+                pc, pol = T.positive(T.as_bool(c))
+                if (tv if pol else not tv):
+                    guard.append(pc)
+            ok = len(guard) == 1 and len(pa.state.assumptions) == 1 and guard[0][0] == "app" \
+                and guard[0][1].endswith("endOverlapsWithStartOf") and guard[0][2] == me
             ck.judge(ok, "C15.3", short(cfc) + ":conflict-guard", w, "a conflict pair is built only when self's end overlaps the other's start",
                      found="; ".join(T.show(g)[:100] for g in guard))
         elif v[0] == "new":
